@@ -183,6 +183,32 @@ pub fn run(out: &mut Out, tier: &str, seed: u64) {
             }
         }
     }
+    // composite literals: several items (escapes, controls, multi-byte, invalid bytes) separated by plain runs
+    for _ in 0..(if thorough { 60000 } else { 6000 }) {
+        let mut lit = vec![b'"'];
+        let items = rng.range(2, 5);
+        for _ in 0..items {
+            let m = if rng.chance(1, 3) { 40 } else { 12 };
+            for _ in 0..rng.below(m) {
+                lit.push(b'a' + rng.below(26) as u8);
+            }
+            let c: &[u8] = match rng.below(10) {
+                0..=4 => CLASSES[1 + rng.below(12)],      // well-formed escapes
+                5 => CLASSES[20 + rng.below(4)],          // raw control characters
+                6 | 7 => CLASSES[24 + rng.below(3)],      // valid multi-byte
+                8 => CLASSES[13 + rng.below(7)],          // bad escapes
+                _ => CLASSES[27 + rng.below(7)],          // invalid UTF-8
+            };
+            lit.extend_from_slice(c);
+        }
+        for _ in 0..rng.below(12) {
+            lit.push(b'z');
+        }
+        lit.push(b'"');
+        out.count("composite");
+        let pad = rng.below(65);
+        decoders(out, &lit, pad, &mut rng);
+    }
     // code points through escapes: every boundary, plus a sample (all of them in the thorough tier)
     let mut cps: Vec<u32> = vec![0, 1, 0x1f, 0x20, 0x22, 0x5c, 0x7f, 0x80, 0x7ff, 0x800, 0xfff, 0x1000, 0xd7ff, 0xd800, 0xdbff, 0xdc00, 0xdfff, 0xe000, 0xfffd, 0xffff, 0x10000, 0x10ffff, 0x1f600];
     if thorough {
